@@ -107,3 +107,7 @@ mod tests {
         Ok(())
     }
 }
+
+#[cfg(kani)]
+#[path = "/verif/harness/sam/reader_quality_scores.rs"]
+mod verif_kani;
